@@ -15,7 +15,7 @@ import os
 
 from hypothesis import strategies as st
 
-from pv.core import Sub, EnumSub, HarnessError, call, call_or, must_raise, check, short
+from pv.core import Sub, EnumSub, HarnessError, call, call_or, must_raise, check, short, fuel
 from pv.codec import build, Env, token
 
 ASSUMPTIONS = [
@@ -618,11 +618,17 @@ def _one_call(cname, base, kw, label):
     if list(kwargs) != [n for n, _ in kw]:
         raise HarnessError('duplicate keyword in %s' % kw)
     deps, cyclic, depth = _graph_info(kw)
-    what = '%s(%s)(%s)' % (cname, short(dict(base), 100), ', '.join('%s=%s' % (n, ('lambda %s' % ','.join(e['f'])) if 'f' in e else repr(e['v'])) for n, e in kw))
+    what = '%s(%s)(%s)' % (cname, short(dict(base), 100), ', '.join('%s=%s' % (n, ('lambda %s: ..' % ','.join(e['f'])) if 'f' in e else repr(e['v'])) for n, e in kw))
+    # termination is decided by fuel: a correct run on 6 callables makes < 2 000 calls (n rounds of n signature inspections)
+    limit = 2000 * (len(kw) + 2) ** 2
+
+    def go():
+        with fuel(limit):
+            return d(**kwargs)
     if cyclic:
-        must_raise(what + ' [circular]', ValueError, lambda: d(**kwargs))
+        must_raise(what + ' [circular]', ValueError, go)
     else:
-        res = call(what, lambda: d(**kwargs))
+        res = call(what, go)
         exp = _reference(base, kw)
         check(type(res) is type(d), '%s returned a %s, not a %s', what, type(res).__name__, type(d).__name__)
         check(res is not d, '%s returned the mapping itself', what)
